@@ -151,7 +151,11 @@ class SimExecutor:
             raise RuntimeError('cannot schedule new futures after shutdown')
         f = SimCFuture(self.sim)
         self.pending.append((f, fn, a, kw))
-        if self.idle == 0 and len(self.workers) < self.max_workers:
+        # same accounting as CPython's ThreadPoolExecutor._adjust_thread_count: one idle token
+        # per worker that finished a work item; a submit consumes a token or spawns a thread
+        if self.idle > 0:
+            self.idle -= 1
+        elif len(self.workers) < self.max_workers:
             self.workers.append(self.sim.spawn(
                 self._worker, name=f'pool{self.serial}-{len(self.workers)}', daemon=True))
         return f
@@ -159,24 +163,20 @@ class SimExecutor:
     def _worker(self):
         sim = self.sim
         while True:
-            self.idle += 1
-            try:
-                sim.block_until(lambda: bool(self.pending) or self.closed, what=('pool-idle', self.serial))
-            finally:
-                self.idle -= 1
+            sim.block_until(lambda: bool(self.pending) or self.closed, what=('pool-idle', self.serial))
             if not self.pending:
                 return
             f, fn, a, kw = self.pending.pop(0)
-            if not f.set_running_or_notify_cancel():
-                continue
-            try:
-                r = fn(*a, **kw)
-            except SimAbort:
-                raise
-            except BaseException as e:  # noqa
-                f.set_exception(e)
-            else:
-                f.set_result(r)
+            if f.set_running_or_notify_cancel():
+                try:
+                    r = fn(*a, **kw)
+                except SimAbort:
+                    raise
+                except BaseException as e:  # noqa
+                    f.set_exception(e)
+                else:
+                    f.set_result(r)
+            self.idle += 1
 
     def busy(self):
         return [w for w in self.workers if w.state != 'done']
